@@ -237,7 +237,8 @@ class Session:
     def pack(self, cand, allow_scalar=False):
         vals = self.conc.values(cand)
         types = set(t[0] for t in cand)
-        if allow_scalar and len(vals) == 1 and self.rnd.random() < 0.3:
+        # a bare scalar instead of a one-element list (not for "": an empty string is an empty sequence to the API)
+        if allow_scalar and len(vals) == 1 and vals[0] != "" and self.rnd.random() < 0.3:
             return vals[0]
         if self.conc.container == "tuple":
             return tuple(vals)
